@@ -209,6 +209,17 @@ class Observables:
                     v = th.DISF2(self.pt_dis.copy())
                 elif name == 'DVMP:XGAMMA':
                     v = th.XGAMMA(self.pt_rho.copy())
+                elif name.startswith('PT:'):
+                    # the prediction for a bundled point: 'PT:<dataset id>:<index>:<observable of the point>'
+                    _, k, i = name.split(':')[:3]
+                    v = th.predict(self.g.dset[int(k)][int(i)].copy())
+                elif name.startswith('XG:'):
+                    # gamma* p cross section at a free kinematic point: 'XG:<process or ->:<W>:<Q2>:<t>'
+                    _, proc, W, Q2, t = name.split(':')
+                    kin = {'W': float(W), 'Q2': float(Q2), 't': float(t)}
+                    if proc != '-':
+                        kin['process'] = proc
+                    v = th.XGAMMA(self.g.DataPoint(kin))
                 else:
                     raise KeyError(name)
                 out.append((name, common.f2hex(float(v))))
@@ -217,12 +228,44 @@ class Observables:
         return out
 
 
+    def wide(self, rng, processes, per_process, nfree):
+        """a wider list of observables for "every observable it predicts": predictions for bundled points of the given
+        process classes (several datasets each: asymmetries, weighted cross sections, harmonics, neutron, F2, rho0/phi
+        production) and gamma* p cross sections at seeded free kinematics"""
+        g = self.g
+        names = []
+        by_proc = {}
+        for k in sorted(g.dset):
+            ds = g.dset[k]
+            pr = getattr(ds, 'process', None)
+            if pr in processes and len(ds):
+                by_proc.setdefault(pr, []).append(k)
+        for pr in processes:
+            ks = by_proc.get(pr, [])
+            seen_obs = set()
+            for k in rng.sample(ks, len(ks)):
+                ds = g.dset[k]
+                o = getattr(ds[0], 'observable', '?')
+                if o in seen_obs and len(seen_obs) < per_process and rng.random() < 0.7:
+                    continue           # prefer different kinds of observable
+                seen_obs.add(o)
+                names.append('PT:%d:%d:%s' % (k, rng.randrange(len(ds)), o))
+                if sum(1 for n in names if n.startswith('PT:') and getattr(g.dset[int(n.split(':')[1])], 'process', None) == pr) >= per_process:
+                    break
+        for _ in range(nfree):
+            if 'gammastarp2gammap' in processes:
+                names.append('XG:-:%r:%r:%r' % (round(rng.uniform(40, 120), 1), round(rng.uniform(3, 30), 1), -round(rng.uniform(0.05, 0.8), 2)))
+            if 'gammastarp2rho0p' in processes:
+                names.append('XG:gammastarp2rho0p:%r:%r:%r' % (round(rng.uniform(40, 120), 1), round(rng.uniform(4, 30), 1), -round(rng.uniform(0.0, 0.5), 3)))
+        return names
+
+
 # ------------------------------------------------------------------------------------------
 # a block set: all / sampled orderings, correspondence + property on the real code
 # ------------------------------------------------------------------------------------------
 
 def check_blockset(rep, tb, obs, label, blocks, orderings, observables, n_obs, rng, in_quantifier=True,
-                   resolve_sample=40, params=None):
+                   resolve_sample=40, params=None, wide=None, n_wide=0):
     """blocks: list of class names (reference order); orderings: list of tuples of class names"""
     t0 = time.time()
     ref_names = list(blocks)
@@ -372,6 +415,46 @@ def check_blockset(rep, tb, obs, label, blocks, orderings, observables, n_obs, r
     else:
         numbers_differ = set()
 
+    # ---- a WIDER list of observables (other datasets, processes, free kinematics; default and shifted parameters) on a sample
+    if ref is not None and wide and n_wide:
+        pool = [x for x in ok_orders if x[0] != ref_perm]
+        wchosen = pool if len(pool) <= n_wide else rng.sample(pool, n_wide)
+        wchosen = wchosen + [(p, T, o) for (p, _, T, o) in (suspects + differing)[:6] if o is not None and p != ref_perm
+                             and all(p != c[0] for c in wchosen)]
+        # a second parameter point: four numeric parameters of the reference moved by +-10 %
+        cand = sorted(k for k, v in ref_obj.parameters.items() if isinstance(v, float) and v != 0 and k not in ('ng', 'Eng', 'kapg'))
+        shift = {k: ref_obj.parameters[k] * rng.choice([0.9, 1.1]) for k in rng.sample(cand, min(4, len(cand)))}
+        if params:
+            # the block set's own parameter values (a shipped fit) on every object compared, the reference included
+            ref_obj.parameters.update(params)
+            for (p, T, o) in wchosen:
+                o.parameters.update(params)
+        for stage, upd in (('default-or-fit-values', None), ('shifted', shift)):
+            if upd is not None and not upd:
+                continue
+            if upd:
+                ref_obj.parameters.update(upd)
+            ref_w = obs.evaluate(ref_obj, wide)
+            rep.hist('wide-observables/' + label, '%s: %d observables, %d raise for the reference' % (
+                stage, len(wide), sum(1 for _, v in ref_w if v.startswith('EXC'))))
+            for (p, T, o) in wchosen:
+                if upd:
+                    o.parameters.update(upd)
+                vals = obs.evaluate(o, wide)
+                rep.case('wide-observables/' + label, (' '.join(p), stage), nontrivial=True,
+                         sample={'bases': list(p), 'parameters': stage, 'observables': wide[:4] + ['…'], 'values': [v for _, v in vals][:4]})
+                if vals != ref_w:
+                    numbers_differ.add(p)
+                    bad = [(n, v, w) for (n, v), (_, w) in zip(vals, ref_w) if v != w]
+                    what = ('ordering %s of %s is instantiable but predicts %s (parameters %s); the reference ordering %s predicts %s'
+                            % (list(p), label, {n: v for n, v, _ in bad[:4]}, stage if not upd else upd, list(ref_perm), {n: w for n, _, w in bad[:4]}))
+                    if in_quantifier or EXTENSION_IS_VIOLATION:
+                        rep.violation('numbers/' + label, what,
+                                      dict(blockset=label, ordering=list(p), reference=list(ref_perm), observables=[n for n, _, _ in bad],
+                                           parameters=upd, got=vals, want=ref_w, reproduce='./check C20 --replay <this file>'), found_input=True)
+                    else:
+                        rep.hist('extension.order-dependent-numbers', label)
+
     # ---- disagreements that did not show up in numbers
     for (perm, problems, T, obj) in suspects:
         if perm in numbers_differ:
@@ -410,15 +493,29 @@ def check_blockset(rep, tb, obs, label, blocks, orderings, observables, n_obs, r
 # run
 # ------------------------------------------------------------------------------------------
 
-def oracle_only(rep, g, obs, rng, tier):
+def oracle_only(rep, g, obs, rng, tier, documented=None):
     """Fallback when the class table cannot be extracted: the property evaluated on the real code
     alone (documented maximal theory and KM combinations), without the model."""
-    doc = open(os.path.join(common.REPO, 'docs', 'source', 'theory.rst')).read()
-    m = re.search(r'class\s+MyTheory\(([^)]*)\):', doc)
     sets = []
-    if m:
-        sets.append(('documented', [getattr(g, t.strip()[2:]) for t in m.group(1).split(',')],
-                     ['DVCS:XLUw', 'DIS:F2', 'DVMP:XGAMMA'], None))
+    blocks = None
+    try:
+        doc = open(os.path.join(common.REPO, 'docs', 'source', 'theory.rst')).read()
+        m = re.search(r'class\s+MyTheory\(([^)]*)\):', doc)
+        if m:
+            blocks = [getattr(g, t.strip()[2:]) for t in m.group(1).split(',')]
+    except (OSError, AttributeError) as e:
+        rep.notes.append('oracle-only: docs/source/theory.rst could not be used (%s: %s)' % (type(e).__name__, str(e)[:120]))
+    if blocks is None and documented:
+        # the list the extractor read from the documentation (when it ran), else the documented maximal theory as of this writing
+        try:
+            blocks = [getattr(g, n) for n in documented]
+        except AttributeError as e:
+            rep.notes.append('oracle-only: documented block list not usable: %s' % e)
+    if blocks is not None:
+        sets.append(('documented', blocks, ['DVCS:XLUw', 'DIS:F2', 'DVMP:XGAMMA'], None))
+    else:
+        rep.violation('oracle-only/no-documented-theory', 'neither docs/source/theory.rst nor the extractor gave the documented maximal '
+                      'theory: its orderings were not examined', dict(), found_input=False)
     from gepard import fits
     for name in ('KM09', 'KM10', 'KM10b', 'AFKM12', 'KM15'):
         if hasattr(fits, name):
@@ -469,6 +566,12 @@ def oracle_only(rep, g, obs, rng, tier):
                               dict(blockset=label, ordering=names, reference=ref[0], observables=observables,
                                    got=vals, want=ref_vals), found_input=True)
                 break
+        else:
+            if diff_first:
+                names = diff_first[0][0]
+                rep.violation('differs/' + label, 'ordering %s of %s: name resolution or instance state differs from the reference ordering %s; '
+                              'no differing observable exhibited' % (names, label, ref[0]),
+                              dict(blockset=label, ordering=names, reference=ref[0]), found_input=False)
 
 
 def table_stream(rep, tb):
@@ -559,6 +662,20 @@ def run(rep):
                           'property evaluated on the real code only', trusted=[])
     tb = Tables(ex, info)
     obs = Observables(g)
+    try:
+        return run_with_model(rep, g, tb, obs, tier, rng, lean_broken)
+    except common.ModelUnavailable as e:
+        # the executable model (regenerated from the source on every run) does not build: what was collected so far stays,
+        # one violation without a failing input is recorded, and the property is evaluated on the real code alone
+        rep.violation('model-unavailable', 'the Lean model of C20 (class table regenerated from the source) could not be run: %s; the '
+                      'orderings were examined on the real code only (oracle-only streams)' % str(e)[:300],
+                      dict(reason=str(e)[:300], lean_side=lean_broken), found_input=False)
+        oracle_only(rep, g, obs, rng, tier, documented=list(tb.documented))
+        return rep.finish(level='proof', checker_cmd='(model driver does not build); property evaluated on the real code only', trusted=[],
+                          explanation='model unavailable: ' + str(e)[:300])
+
+
+def run_with_model(rep, g, tb, obs, tier, rng, lean_broken):
     table_stream(rep, tb)
 
     # Lean's static check on the quantified block sets (the theorems' hypothesis)
@@ -573,9 +690,12 @@ def run(rep):
     doc = tb.documented
     perms = list(itertools.permutations(doc))
     n_obs = 100 if tier == 'quick' else None
+    every = ('ep2epgamma', 'en2engamma', 'gammastarp2gammap', 'dis', 'gammastarp2rho0p', 'gammastarp2phip')
+    wide_doc = obs.wide(rng, every, 1 if tier == 'quick' else 4, 1 if tier == 'quick' else 4)
     check_blockset(rep, tb, obs, 'documented', doc, perms,
                    ['DVCS:XLUw', 'DIS:F2', 'DVMP:XGAMMA'], n_obs, rng,
-                   resolve_sample=40 if tier == 'quick' else 600)
+                   resolve_sample=40 if tier == 'quick' else 600,
+                   wide=wide_doc, n_wide=6 if tier == 'quick' else 1000)
 
     # ---- the shipped KM combinations: all orderings
     from gepard import fits
@@ -584,7 +704,9 @@ def run(rep):
         pars = getattr(fits, 'par_' + name, None) or getattr(fits, 'par_' + name + 'a', None)
         check_blockset(rep, tb, obs, name, bs, perms, ['DVCS:XLUw', 'DVCS:XGAMMA'],
                        3 if tier == 'quick' else None, rng, resolve_sample=6 if tier == 'quick' else 24,
-                       params=dict(pars) if pars else None)
+                       params=dict(pars) if pars else None,
+                       wide=obs.wide(rng, ('ep2epgamma', 'gammastarp2gammap'), 2 if tier == 'quick' else 5, 0 if tier == 'quick' else 2),
+                       n_wide=1 if tier == 'quick' else 24)
 
     # ---- beyond the quantifier: other block sets (model correspondence; soundness of the static check)
     nsets = 40 if tier == 'quick' else 400
@@ -628,7 +750,8 @@ def run(rep):
     rep.assumptions += [
         'observables compared bit-for-bit (no tolerance): DVCS XLUw at CLAS point dset[101][3], DIS F2 at '
         'dset[201][0], DVMP rho0 XGAMMA at Q2=6.6 W=75 t=-0.025; quick tier evaluates them on a seeded sample '
-        'of instantiable orderings, thorough on all',
+        'of instantiable orderings, thorough on all; a wider seeded list (bundled points of every process class the theory '
+        'describes, free gamma* p kinematics, default and +-10 % shifted parameters) on a sample of orderings (6 quick, 1000 thorough)',
         'instance state compared through a canonical text (dicts by sorted key: insertion order of '
         '`parameters` may differ between orderings and is not part of the property)',
         'block sets outside the property\'s quantifier (extension stream) are reported in notes, not as violations',
